@@ -8,7 +8,7 @@ import z3
 from z3 import Solver, Not, BoolVal
 from .state import STATS
 
-TIMEOUT_MS = int(os.environ.get("PYVC_TIMEOUT_MS", "30000"))
+TIMEOUT_MS = int(os.environ.get("PYVC_TIMEOUT_MS", "60000"))     # typical obligations take milliseconds; the slowest seen under 4x contention ~ 5 s
 SEED = int(os.environ.get("VERIF_SEED", "0") or 0)
 
 
